@@ -188,6 +188,11 @@ theorem moveaxis_sequences_put_sources (n : Nat) (src dst : List Nat) (hlen : sr
     (hs : src.Nodup) (hd : dst.Nodup) (hsr : ∀ a ∈ src, a < n) (hdr : ∀ a ∈ dst, a < n) :
     ∀ p ∈ List.zip dst src, (moveaxisSeqPerm n src dst).getD p.1 0 = p.2 :=
   moveaxisSeqPerm_puts_sources n src dst hlen hs hd hsr hdr
+/-- ... and for such sequences the call never raises: the order is a permutation of the axes -/
+theorem moveaxis_sequences_succeed (shape src dst : List Nat) (hlen : src.length = dst.length)
+    (hs : src.Nodup) (hd : dst.Nodup) (hsr : ∀ a ∈ src, a < shape.length) (hdr : ∀ a ∈ dst, a < shape.length) :
+    ∃ out idx, moveaxisSeqF shape src dst = some (out, idx) :=
+  moveaxisSeqF_isSome shape src dst hlen hs hd hsr hdr
 theorem moveaxis_sequences_is_transpose {shape src dst out idx : List Nat} (h : moveaxisSeqF shape src dst = some (out, idx)) :
     transposeF shape (moveaxisSeqPerm shape.length src dst) = some (out, idx) := by
   unfold moveaxisSeqF at h
